@@ -609,8 +609,8 @@ ForRun(st, env, cl, ci, body, acc) ==
                      \* catamorphisms fold as the loop runs: `first` stops it, a value the fold cannot take raises at once
                      (IF body.cata = "first" THEN FR(r.st, "brk", r.v, 0, TRUE, acc)
                       ELSE IF body.cata \in {"sum", "product"} /\ r.v.t # "int" THEN FR(r.st, "thr", VStr("type"), 0, FALSE, acc)
-                      ELSE IF body.cata \in {"max", "min"} /\ acc # <<>> /\ ~(r.v.t = "int" /\ acc[1].t = "int") /\ ~(r.v.t = "null" /\ acc[1].t = "null")
-                           THEN FR(r.st, "thr", VStr("type"), 0, FALSE, acc)
+                      ELSE IF body.cata \in {"max", "min"} /\ acc # <<>> /\ ~(r.v.t = "int" /\ acc[1].t = "int")
+                           THEN FR(r.st, "thr", VStr("type"), 0, FALSE, acc)     \* the second value is compared with the first
                       ELSE FR(r.st, "val", Null, 0, FALSE, Append(acc, r.v)))
                  ELSE IF r.k = "cont" /\ r.lv = 0 THEN FR(r.st, "val", Null, 0, FALSE, acc)
                  ELSE FR(r.st, r.k, r.v, r.lv, r.hv, acc)
